@@ -607,9 +607,37 @@ class C10Membership(Monitor):
                 if a.vehicle_state.instance_id == before.vehicles[v.id].vehicle_state.instance_id:
                     h.flag("cross_fleet_instruction_rejected")
         yield from self.check_state(after, "after step")
+        # (b) pairings produced by the built-in generators (every instruction they emitted, whether or not a
+        # later generator overrode it) and by the vehicles' own drivers (winning instructions nobody scripted)
+        scripted = {(type(i).__name__, i.vehicle_id) for g in h.scripted for i in g.emitted}
+        produced = [(g.name, i) for g in h.builtin_gens for i in g.emitted]
+        for e in _events(events, "INSTRUCTION"):
+            if (e["instruction_type"], e["vehicle_id"]) not in scripted and not any(type(i).__name__ == e["instruction_type"] and i.vehicle_id == e["vehicle_id"] for _, i in produced):
+                produced.append(("driver", _Rec(e)))
+        for who, i in produced:
+            v = mid.vehicles.get(i.vehicle_id)
+            if v is None:
+                continue
+            # the statement's second sentence names requests and stations; bases are judged by clause (a) only
+            for attr, pool, what in (("request_id", mid.requests, "request"), ("station_id", mid.stations, "station")):
+                tid = getattr(i, attr, None)
+                tgt = pool.get(tid) if tid is not None else None
+                if tgt is not None:
+                    h.flag("builtin_pairing")
+                    h.stats["builtin_pairings"] += 1
+                    if not grants(tgt, v):
+                        nofleet = " (vehicle in no fleet)" if not v.membership.memberships else ""
+                        yield Violation("C10", f"{who} paired a vehicle with a {what} of a fleet it does not belong to{nofleet}", {"instruction": type(i).__name__ if not isinstance(i, _Rec) else i.instruction_type, "vehicle": v.id, "vehicle_fleets": sorted(v.membership.memberships), what: tid, what + "_fleets": sorted(tgt.membership.memberships)})
 
     def after_probe(self, h, before, after, instruction, vid):
         return self.check_state(after, "after single instruction")
+
+
+class _Rec:
+    """attribute view of an INSTRUCTION report"""
+
+    def __init__(self, e):
+        self.__dict__.update(e)
 
 
 # ============================================================================ C17
